@@ -57,6 +57,7 @@ from pathlib import Path
 from typing import Any, Dict, List, Optional, Sequence, Tuple
 
 from . import common as C
+from . import priv as _PV
 
 TYPE_IDS = [4001, 4002, 4003, 0, 1]    # 8-byte, 16-byte and 0-byte (signal) payloads; the core signals EXIT (0), KILL (1)
 TYPE_SIZES = [8, 16, 0, 0, 0]
@@ -576,8 +577,9 @@ def run_sched_case(case: Dict[str, Any]) -> Dict[str, Any]:
     dcm = E["dcm"]
     ctl = Controller()
     shim_thr, shim_time = ShimThreading(ctl), ShimTime()
-    old = (dcm.threading, dcm.time)
-    dcm.threading, dcm.time = shim_thr, shim_time
+    from .rebind import rebind, snapshot, reinstate   # stand-ins under any import style of data_collection.py
+    old = snapshot(dcm, ("threading", "time"))
+    rebind(dcm, {"threading": shim_thr, "time": shim_time})
     base = tempfile.mkdtemp(prefix="pyrtma_verif_dlrun_")
     wc = WarnCounter()
     root_logger = logging.getLogger("data_logger")
@@ -689,7 +691,7 @@ def run_sched_case(case: Dict[str, Any]) -> Dict[str, Any]:
             ctl.abort = False
         ctl.free = True
         if dc is not None:
-            dc._close = True
+            _PV.set_flag_read_by(dc, "write", True, "_close")      # the writer loop's stop flag, whatever it is called
             if ctl.started and ctl.at.get("W") != "finished":
                 ctl.go["W"].release()
             try:
@@ -705,9 +707,9 @@ def run_sched_case(case: Dict[str, Any]) -> Dict[str, Any]:
                     except Exception:  # noqa: BLE001
                         pass
             finally:
-                dc._dead = True
+                _PV.set_flag_read_by(dc, "__del__", True, "_dead")     # keeps __del__ from closing again
         root_logger.removeHandler(wc)
-        dcm.threading, dcm.time = old
+        reinstate(dcm, old)
         shutil.rmtree(base, ignore_errors=True)
     return obs
 
@@ -893,7 +895,8 @@ def multi_session_check(fmt: str = "raw", flush_every_update: bool = False, sess
     dcm = E["dcm"]
     base = tempfile.mkdtemp(prefix="pyrtma_verif_dlmulti_")
     old_period = dcm.DataCollection.WRITE_PERIOD
-    old_thr = dcm.threading
+    from .rebind import rebind, snapshot, reinstate   # stand-ins under any import style of data_collection.py
+    old_thr = snapshot(dcm, ("threading",))
     out: Dict[str, Any] = {"fmt": fmt, "flush_every_update": flush_every_update, "sessions": [], "exc": None}
     box: Dict[str, Any] = {"dc": None}
 
@@ -951,7 +954,7 @@ def multi_session_check(fmt: str = "raw", flush_every_update: bool = False, sess
             out["exc"] = f"{type(e).__name__}: {e}"[:300]
 
     try:
-        dcm.threading = _DaemonThreading()
+        rebind(dcm, {"threading": _DaemonThreading()})
         if flush_every_update:
             dcm.DataCollection.WRITE_PERIOD = 0.0
         t = _real_threading.Thread(target=body, daemon=True)
@@ -966,12 +969,12 @@ def multi_session_check(fmt: str = "raw", flush_every_update: bool = False, sess
         dcm.DataCollection.WRITE_PERIOD = old_period
         dc = box["dc"]
         if dc is not None:
-            dc._close = True
+            _PV.set_flag_read_by(dc, "write", True, "_close")      # the writer loop's stop flag, whatever it is called
             closer = _real_threading.Thread(target=_quiet, args=(dc.close,), daemon=True)
             closer.start()
             closer.join(5)
-            dc._dead = True
-        dcm.threading = old_thr
+            _PV.set_flag_read_by(dc, "__del__", True, "_dead")     # keeps __del__ from closing again
+        reinstate(dcm, old_thr)
         shutil.rmtree(base, ignore_errors=True)
     return out
 
